@@ -10,12 +10,10 @@ theorem fromSource_path_eq {peer : Peer} {p q : Path} {old : Option Path}
   split at h
   · cases h; rfl
   · split at h
+    · cases h; rfl
     · split at h
-      · cases h; rfl
-      · split at h
-        · split at h <;> cases h
-        · cases h
-    · cases h
+      · split at h <;> cases h
+      · cases h
 
 theorem ibgpBlock_not_path (peer : Peer) (p : Path) (old : Option Path) (q : Path) :
     ibgpBlock peer p old ≠ some (.path q) := by
@@ -85,16 +83,13 @@ theorem filter_not_back_to_source (peer : Peer) (p : Path) (old : Option Path)
   unfold fromSource at hfs
   simp only [hid, bne_self_eq_false, Bool.false_eq_true, if_false] at hfs
   split at hfs
-  · rename_i hrs
-    split at hfs
-    · rename_i hc
-      apply hx
-      simp only [Bool.and_eq_true, beq_iff_eq] at hc
-      exact ⟨by simpa using hrs, hc.1, hc.2⟩
-    · split at hfs
-      · split at hfs <;> cases hfs
-      · cases hfs
-  · cases hfs
+  · rename_i hc
+    apply hx
+    simp only [Bool.and_eq_true, beq_iff_eq, Bool.not_eq_eq_eq_not, Bool.not_true] at hc
+    exact ⟨hc.1.1, hc.1.2, hc.2⟩
+  · split at hfs
+    · split at hfs <;> cases hfs
+    · cases hfs
 
 /-- AS-loop toward the peer: a route whose AS_PATH (SEQ/SET segments) holds the peer's AS is not
     handed on, unless it is local and the peer allows that -/
